@@ -13,6 +13,7 @@ from harness.common import PY, REPO, VERIF
 from harness.props import c11_pool
 
 HARD_WALL_LIMIT = 100.0     # CPU seconds one case may take before the worker is killed (hang) ...
+HANG_FACTOR = 100.0         # see c11.HANG_FACTOR
 MAX_HANGS = 4               # after this many hangs the remaining cases are skipped (the run is a VIOLATION already)
 ABS_WALL_LIMIT = 1500.0     # ... or this many wall-clock seconds (a process that sleeps / blocks forever uses no CPU)
 
@@ -47,7 +48,7 @@ class _Worker:
         d = self.base / f"w{self.idx}g{self.gen}"
         d.mkdir(parents=True, exist_ok=True)
         self.out = d / "out.jsonl"
-        job = {"root": str(d / "proj"), "faillog": str(d / "faillog.jsonl"), "siblings": c11_pool.siblings(),
+        job = {"root": str(d / "proj"), "faillog": str(d / "faillog.jsonl"), "siblings": c11_pool.siblings(), "hang_factor": HANG_FACTOR,
                "cases": [{**c, "data": base64.b64encode(c["data"]).decode()} for c in self.todo]}
         (d / "jobs.json").write_text(json.dumps(job))
         self.errfile = d / "stderr.txt"
